@@ -119,6 +119,41 @@ Theorem op_budget_send_all_from_iterable :
 Proof. exact send_iter_budget. Qed.
 Print Assumptions op_budget_send_all_from_iterable.
 
+(* The LOWER half through the send loops (TimeoutError only if the operation really could not complete within T):
+   _retry never charges more than the time its waits took -- the timeout it hands back is at least T minus that time -- *)
+Theorem retry_never_overcharges :
+  forall (St R : Type) (cb : St -> cbres R * St * Z) (fuel : nat) (ri : tmo) (t : Z) (st : St) (sels : list selans)
+         (v : R) (T' : tmo),
+    rr_out (retry_loop cb fuel ri (Some t) st sels) = ROk v T' ->
+    exists t', T' = Some t' /\ t - sum_wait_el (rr_waits (retry_loop cb fuel ri (Some t) st sels)) <= t'.
+Proof. exact retry_loop_ok_remaining. Qed.
+Print Assumptions retry_never_overcharges.
+
+(* ... and send_all_from_iterable (sendmsg loop reusing the timeout handed back by _retry, or join + send_all recomputing
+   from the elapsed time of each send) raises TimeoutError only when the call really took at least T, provided the
+   selector reports "not ready" only after the full requested wait and call costs are not negative: no early timeout,
+   in particular no wait is charged twice. *)
+Theorem timeout_only_if_exhausted_send :
+  forall (drop_empty has_sendmsg : bool) (iov : Z) (F fuel : nat) (ri : tmo) (chunks : list bytes) (t : Z)
+         (s : sock) (sels : list selans),
+    Forall (fun a => 0 <= match a with SSent _ c => c | SBlock _ c => c | SErr c => c end) (sk_script s) ->
+    sr_out (send_iter drop_empty has_sendmsg iov F fuel ri chunks (Some t) s sels) = SExc E_TIMEOUT ->
+    Forall (fun w => w_ready w = false -> exists r, w_req w = Some r /\ r <= w_el w)
+           (sr_waits (send_iter drop_empty has_sendmsg iov F fuel ri chunks (Some t) s sels)) ->
+    t <= sr_dt (send_iter drop_empty has_sendmsg iov F fuel ri chunks (Some t) s sels).
+Proof. exact send_iter_timeout_exhausted. Qed.
+Print Assumptions timeout_only_if_exhausted_send.
+
+(* for the sendmsg loop alone the waits themselves account for T (call costs are not charged there) *)
+Theorem timeout_only_if_exhausted_sendmsg :
+  forall (F : nat) (ri : tmo) (iov fuel : nat) (bufs : list bytes) (t : Z) (s : sock) (sels : list selans),
+    sr_out (sendmsg_loop F ri iov fuel bufs (Some t) s sels) = SExc E_TIMEOUT ->
+    Forall (fun w => w_ready w = false -> exists r, w_req w = Some r /\ r <= w_el w)
+           (sr_waits (sendmsg_loop F ri iov fuel bufs (Some t) s sels)) ->
+    t <= sum_wait_el (sr_waits (sendmsg_loop F ri iov fuel bufs (Some t) s sels)).
+Proof. exact sendmsg_loop_timeout_exhausted. Qed.
+Print Assumptions timeout_only_if_exhausted_sendmsg.
+
 (* op_budget, TCPNetworkClient.send_packet: lock wait + k partial writes. *)
 Theorem op_budget_client_send_packet :
   forall (drop_empty has_sendmsg : bool) (iov : Z) (F fuel : nat) (ri : tmo) (chunks : list bytes) (t : Z)
